@@ -17,6 +17,7 @@ import (
 	"fmt"
 	"math/rand"
 	"net"
+	"runtime"
 	"runtime/debug"
 	"sort"
 	"strings"
@@ -220,6 +221,10 @@ func (c *l1NetConn) Read(b []byte) (int, error) { select {} }
 func (c *l1NetConn) Write(b []byte) (int, error) {
 	c.mu.Lock()
 	defer c.mu.Unlock()
+	if c.closed {
+		// like a real socket: nothing reaches the wire once the connection has been closed
+		return 0, net.ErrClosed
+	}
 	c.out = append(c.out, append([]byte{}, b...))
 	return len(b), nil
 }
@@ -850,6 +855,15 @@ func init() {
 			if _, dead := o["blocked"]; dead {
 				break
 			}
+			// a goroutine left behind by the event that allocates without bound (heap far beyond anything a
+			// handful of sessions needs): the agent would run out of memory
+			var ms runtime.MemStats
+			runtime.ReadMemStats(&ms)
+			if ms.HeapAlloc > 768<<20 {
+				o["runaway"] = ms.HeapAlloc
+				verifAbort = "memory runaway after an l1 event"
+				break
+			}
 		}
 		return map[string]interface{}{"obs": obs}, nil
 	})
@@ -982,7 +996,7 @@ func l1SemPdr(p *ie.IE, t *l1Intern) interface{} {
 				v, e := x.ApplicationID()
 				els = append(els, map[string]interface{}{"k": "app", "v": l1Acc(e, t.id("app:"+v))})
 			case ie.SDFFilter:
-				f, e := sdfFilterFields(x)
+				f, e := l1SdfFields(x)
 				if e != nil || f.FlowDescription == "" {
 					els = append(els, map[string]interface{}{"k": "sdf", "v": "err"})
 				} else {
@@ -1159,13 +1173,13 @@ func l1Sem(raw []byte, t *l1Intern) (out interface{}) {
 			e := map[string]interface{}{}
 			id, err := a.ApplicationID()
 			e["id"] = l1Acc(err, t.id("app:"+id))
-			ctx, err := a.PFDContext()
+			ctx, err := l1AllPFDContents(a)
 			if err != nil {
 				e["ctx"] = "err"
 			} else {
 				cs := []interface{}{}
 				for _, c := range ctx {
-					f, err := pfdContentsFields(c)
+					f, err := l1PfdFields(c)
 					if err != nil {
 						cs = append(cs, "err")
 					} else {
@@ -1216,4 +1230,46 @@ func l1FlowOrEmpty(text string) interface{} {
 		return "err"
 	}
 	return l1Flow(text)
+}
+
+
+// decoder-side copies of three small accessors (kept here so that the driver does not depend on helper names of /repo)
+func l1Recover(err *error) {
+	if r := recover(); r != nil {
+		*err = fmt.Errorf("malformed IE: %v", r)
+	}
+}
+
+func l1SdfFields(i *ie.IE) (f *ie.SDFFilterFields, err error) {
+	defer l1Recover(&err)
+	return i.SDFFilter()
+}
+
+func l1PfdFields(i *ie.IE) (f *ie.PFDContentsFields, err error) {
+	defer l1Recover(&err)
+	return i.PFDContents()
+}
+
+func l1AllPFDContents(a *ie.IE) ([]*ie.IE, error) {
+	children, err := a.ApplicationIDsPFDs()
+	if err != nil {
+		return nil, err
+	}
+	var out []*ie.IE
+	found := false
+	for _, c := range children {
+		if c.Type != ie.PFDContext {
+			continue
+		}
+		found = true
+		ctx, err := c.PFDContext()
+		if err != nil {
+			return nil, err
+		}
+		out = append(out, ctx...)
+	}
+	if !found {
+		return nil, ie.ErrIENotFound
+	}
+	return out, nil
 }
